@@ -25,7 +25,10 @@ impl<'a> StatementEvaluator<'a> {
             }
         }
         match self.program().next_token() {
-            Some(Token::Stop) => Ok(self.interpreter.break_at_current_location()),
+            Some(Token::Stop) => {
+                self.skip_else_clause();
+                Ok(self.interpreter.break_at_current_location())
+            }
             Some(Token::Dim) => self.evaluate_dim_statement(),
             Some(Token::Print) | Some(Token::QuestionMark) => self.evaluate_print_statement(),
             Some(Token::Input) => self.evaluate_input_statement(),
@@ -53,6 +56,17 @@ impl<'a> StatementEvaluator<'a> {
 
     fn program(&mut self) -> &mut Program {
         &mut self.interpreter.program
+    }
+
+    /// A statement in a THEN clause that suspends execution or remembers the
+    /// current location to come back to it later (STOP, INPUT, GOSUB, FOR) can't
+    /// rely on the enclosing IF statement to skip the ELSE clause: by the time
+    /// execution resumes, the IF statement is long gone. So such statements skip
+    /// the ELSE clause (and anything else on the line) themselves.
+    fn skip_else_clause(&mut self) {
+        if self.program().peek_next_token() == Some(Token::Else) {
+            self.program().discard_remaining_tokens();
+        }
     }
 
     fn evaluate_expression(&mut self) -> Result<Value, TracedInterpreterError> {
@@ -192,6 +206,7 @@ impl<'a> StatementEvaluator<'a> {
                     if has_excess_data {
                         self.interpreter.output(InterpreterOutput::ExtraIgnored);
                     }
+                    self.skip_else_clause();
                     Ok(())
                 }
                 Err(TracedInterpreterError {
@@ -277,6 +292,7 @@ impl<'a> StatementEvaluator<'a> {
         let Some(Token::NumericLiteral(line_number)) = self.program().next_token() else {
             return Err(InterpreterError::UndefinedStatement.into());
         };
+        self.skip_else_clause();
         self.program().gosub_line_number(line_number as u64)?;
         Ok(())
     }
@@ -298,6 +314,7 @@ impl<'a> StatementEvaluator<'a> {
             1.0
         };
 
+        self.skip_else_clause();
         self.interpreter.program.start_loop(
             &mut self.interpreter.variables,
             symbol.clone(),
